@@ -330,7 +330,7 @@ func hookMatches(pattern, name string) bool {
 	}
 	if strings.HasSuffix(name, pattern) {
 		c := name[len(name)-len(pattern)-1]
-		return c == '.' || c == ')' || c == ':'
+		return c == '.' || c == ')' || c == ':' || c == '/'
 	}
 	return false
 }
@@ -461,7 +461,10 @@ func (x *Exec) resultVars(sig *types.Signature, res []Val) map[string]Val {
 func (x *Exec) applyContract(st *State, fr *Frame, con *Contract, name string, sig *types.Signature, args []Val, pos string, k contK) {
 	names := x.paramNames(sig, con)
 	if strings.HasPrefix(name, "iface:") {
-		names = append([]string{"recv"}, names...)
+		names = []string{"recv"}
+		for i := 1; i < len(args); i++ {
+			names = append(names, fmt.Sprintf("arg%d", i-1))
+		}
 	}
 	if len(names) != len(args) {
 		// method expressions / bound receivers: be lenient by naming positional
@@ -473,6 +476,7 @@ func (x *Exec) applyContract(st *State, fr *Frame, con *Contract, name string, s
 	vars := map[string]Val{}
 	for i, a := range args {
 		vars[names[i]] = a
+		vars[names[i]+"0"] = a
 		vars[fmt.Sprintf("$arg%d", i)] = a
 	}
 	if con.Assumed {
@@ -510,9 +514,11 @@ func (x *Exec) applyContract(st *State, fr *Frame, con *Contract, name string, s
 	x.havocModifies(st, env, con, name)
 	x.curCallee = ""
 	// allocation may grow
-	na := x.freshConst("alloc", "Int")
-	st.assume(app("<=", st.alloc, na))
-	st.alloc = na
+	if !con.NoAlloc {
+		na := x.freshConst("alloc", "Int")
+		st.assume(app("<=", st.alloc, na))
+		st.alloc = na
+	}
 	res := x.freshResults(st, sig, "ret")
 	post := env.with(x.resultVars(sig, res))
 	post.st = st
@@ -527,6 +533,17 @@ func (x *Exec) applyContract(st *State, fr *Frame, con *Contract, name string, s
 	}
 	x.collectTyping = false
 	x.assumeCollectedTyping(st)
+	if con.Functional != "" && len(res) == 1 {
+		var argExprs []Expr
+		for _, a := range args {
+			argExprs = append(argExprs, fixedVal{a})
+		}
+		fv := x.trVal(post, ECall{Fn: con.Functional, Args: argExprs}, pos)
+		rt, ft := x.flatten(res[0]), x.flatten(fv)
+		for i := range rt {
+			st.assume(eq(rt[i], ft[i]))
+		}
+	}
 	k(st, fr, res)
 }
 
@@ -595,6 +612,31 @@ func (x *Exec) resolveModifies(env *Env, items []ModItem, where string) (map[str
 				for _, i := range path {
 					a = x.fieldAddr(a, i)
 				}
+				for _, l := range x.sorts.leaves(a.T) {
+					add(a.Prefix+l.suffix, x.leafHeapSort(a, l), false, a.Idx)
+				}
+			case "fields":
+				base := env.tr(it.X)
+				if base.K == KIface {
+					dt := base.DynT
+					if dt == nil {
+						if kt, ok := env.st.knownTag[base.Tag]; ok {
+							dt = kt
+						}
+					}
+					if dt == nil {
+						env.fail("fields(%s): dynamic type of the interface value is not known at this call", it.X)
+					}
+					base = Val{T: dt, K: KScalar, S: base.Pay}
+				}
+				pt, ok := base.T.Underlying().(*types.Pointer)
+				if !ok {
+					env.fail("fields(%s): not a pointer", it.X)
+				}
+				if _, ok := pt.Elem().Underlying().(*types.Struct); !ok {
+					env.fail("fields(%s): not a pointer to struct", it.X)
+				}
+				a := x.addrOf(base)
 				for _, l := range x.sorts.leaves(a.T) {
 					add(a.Prefix+l.suffix, x.leafHeapSort(a, l), false, a.Idx)
 				}
